@@ -5,6 +5,10 @@ use vstd::prelude::*;
 //@ enditem
 //@ item src/error.rs / type Result props=C01
 //@ enditem
+//@ if insert_error
+//@ item src/error.rs / struct InsertError props=C15
+//@ enditem
+//@ endif
 //@ region error_from_spec props=C15
 impl vstd::std_specs::convert::FromSpecImpl<std::io::Error> for Error {
     open spec fn obeys_from_spec() -> bool { true }
